@@ -171,6 +171,12 @@ def run(ctx):
             if len(L) < 3:
                 continue
             lim = 'rays'
+        if rng.random() < 0.06:
+            # ALL points on one line (vertical, horizontal or slanted), shuffled: the hull is a segment
+            dx_, dy_ = rng.choice([(0, 1), (1, 0), (1, 1), (2, -1), (1, 3)])
+            L = [(dx_ * m_, dy_ * m_) for m_ in rng.sample(range(-6, 7), rng.randrange(3, 9))]
+            rng.shuffle(L)
+            lim = 'collinear-all'
         P_ = np.array(L, float)
         u = rng.random()
         tag = ''
